@@ -141,7 +141,13 @@ def check_value(p, v, col, variant):
         col.violation("marshal-succeeds", case, f"marshal({vsrc[:160]}, t={mat.root_expr}) raised {tl.exc_name(m1)}: {m1}",
                       bucket=exc_bucket(m1))
         return
-    k2, m2 = tl.call(tl.marshal, v, t=T)
+    # the second call goes another way to the same marshaller: the routine object or the codec's own marshal step
+    if len(vsrc) % 3 == 0:
+        k2, m2 = tl.call(tl.marshal, v, t=T)
+    elif len(vsrc) % 3 == 1:
+        k2, m2 = tl.call(lambda: tl.marshaller(T)(v))
+    else:
+        k2, m2 = tl.call(lambda: tl.codec(T).marshal(v))
     bad = json_plain(m1)
     if bad:
         col.violation("json-plain", case, f"marshal({vsrc[:160]}, t={mat.root_expr}) = {m1!r:.160}: {bad}",
